@@ -213,7 +213,7 @@ asn1f_look_value_in_type(arg_t *arg,
 				break;
 			default:
 				WARNING("Unexpected type %s for %s",
-						type_expr->expr_type,
+						ASN_EXPR_TYPE2STR(type_expr->expr_type),
 						type_expr->Identifier);
 				return -1;
 			}
